@@ -347,6 +347,7 @@ func (w *World) afterEndBlock() {
 		switch prop.Status {
 		case govv1.StatusPassed:
 			p.Done, p.Passed = true, true
+			w.Class("gov.passed." + p.Op.Kind)
 		case govv1.StatusFailed, govv1.StatusRejected:
 			p.Done = true
 		}
